@@ -425,7 +425,15 @@ func poolAliasViolations(fns []*ssa.Function) []poolAlias {
 						return "", false
 					}
 					seen[x] = true
+					// the pooled value itself, when it is a slice (a pooled []byte handed out directly)
+					if _, isSlice := x.Type().Underlying().(*types.Slice); isSlice {
+						if b, ok := isPooled(x); ok {
+							return b, true
+						}
+					}
 					switch y := x.(type) {
+					case *ssa.TypeAssert:
+						return walk(y.X, d+1)
 					case *ssa.Call:
 						if rv := recvOf(&y.Call); rv != nil {
 							if b, ok := isPooled(rv); ok {
